@@ -5,11 +5,10 @@
    layouts and about the filter / ignore predicates.  The last group
    ([packages_bytes_*]) closes the byte level for Packages indices: the text
    rendered from a structured index (Model/Render.v) parses to exactly the pool
-   files the structured form defines, for the three admissible file endings.
-   For Sources the byte-level classification is tied to the code by the per-run
-   correspondence and the independent reference parser only. *)
+   files the structured form defines, for the three admissible file endings;
+   [sources_bytes_*] does the same for Sources indices. *)
 From AM.Model Require Import Base Path Targets Deb822 Render.
-From AM.Lemmas Require Import Deb822Lemmas RenderLemmas.
+From AM.Lemmas Require Import Deb822Lemmas RenderLemmas SourcesLemmas SourcesRender.
 From Coq Require Import Permutation.
 Open Scope string_scope.
 Open Scope list_scope.
@@ -144,4 +143,52 @@ Example packages_bytes_example :
   index_entries false no_filters [] (parse "/r") ss =
     [{| pe_path := parse "pool/main/a/alpha/alpha_1.0_amd64.deb"; pe_size := 1234%Z; pe_ign := false |};
      {| pe_path := parse "pool/main/b/beta_2_all.deb"; pe_size := 7%Z; pe_ign := false |}].
+Proof. vm_compute. repeat split; reflexivity. Qed.
+
+(* ---------------------------------------------------------------- byte level: Sources *)
+(* A Sources index as TEXT.  Structured form: per stanza a list of fields —
+   Package, Directory, checksum sections (Files / Checksums-Sha1|Sha256|Sha512,
+   or an unknown Checksums-X) with their " hash size name" lines, and any other
+   field with its continuation lines.  [sfield_step] is what the format says a
+   field does (a known section adds the files not yet listed, first listing
+   wins; anything else closes the section), [sindex_entries] the pool files: for
+   each stanza with a Package the filter admits and a safe Directory, every
+   listed file under that Directory with its listed size.  For every well-formed
+   index the bytes parse to exactly that, for the three file endings. *)
+Theorem sources_bytes_spaced :
+  forall flt ign root ss,
+  wf_sindex ss = true ->
+  parse_sources flt ign root (render_sources_spaced ss) = POk (sindex_entries flt ign root ss).
+Proof. exact sources_spaced_lemma. Qed.
+Print Assumptions sources_bytes_spaced.
+
+Theorem sources_bytes_tight :
+  forall flt ign root ss last,
+  wf_sindex ss = true -> forallb wf_sfield last = true ->
+  parse_sources flt ign root (render_sources_tight ss last) = POk (sindex_entries flt ign root (ss ++ [(last, 0)])).
+Proof. exact sources_tight_lemma. Qed.
+Print Assumptions sources_bytes_tight.
+
+Theorem sources_bytes_unterminated :
+  forall flt ign root ss last k fs x,
+  wf_sindex ss = true -> forallb wf_sfield (last ++ [SFSection k (fs ++ [x])]) = true ->
+  parse_sources flt ign root (render_sources_unterminated ss last k fs x) =
+  POk (sindex_entries flt ign root (ss ++ [(last ++ [SFSection k (fs ++ [x])], 0)])).
+Proof. exact sources_unterminated_lemma. Qed.
+Print Assumptions sources_bytes_unterminated.
+
+Example sources_bytes_example :
+  let o n v c := SFOther {| fname := n; fvalue := v; fcont := c |} in
+  let s1 := [SFPackage "alpha"; o "Binary" "alpha, alpha-dev" []; SFDirectory "pool/main/a/alpha";
+             o "Package-List" "" ["alpha deb libs optional arch=any"];
+             SFSection "Checksums-Sha3" [("ffff", "12", "decoy.tar.gz")];
+             SFSection "Files" [("00aa", "77", "alpha_1.0.dsc"); ("00bb", "2048", "alpha_1.0.orig.tar.xz")];
+             SFSection "Checksums-Sha256" [("11aa", "77", "alpha_1.0.dsc"); ("11cc", "5", "alpha_1.0-1.debian.tar.xz")]] in
+  let ss := [(s1, 1)] in
+  wf_sindex ss = true /\
+  sindex_entries no_filters [] (parse "/r") ss =
+    [{| pe_path := parse "pool/main/a/alpha/alpha_1.0.dsc"; pe_size := 77%Z; pe_ign := false |};
+     {| pe_path := parse "pool/main/a/alpha/alpha_1.0.orig.tar.xz"; pe_size := 2048%Z; pe_ign := false |};
+     {| pe_path := parse "pool/main/a/alpha/alpha_1.0-1.debian.tar.xz"; pe_size := 5%Z; pe_ign := false |}] /\
+  parse_sources no_filters [] (parse "/r") (render_sources_spaced ss) = POk (sindex_entries no_filters [] (parse "/r") ss).
 Proof. vm_compute. repeat split; reflexivity. Qed.
